@@ -102,6 +102,13 @@ def gen_trace(seed, world, tier):
             steps.append({"k": "rng", "op": "draw", "n": R_.randint(1, 300), "client": 1})
         else:
             steps.append({"k": "rng", "op": "seed", "v": R_.randrange(10 ** 6), "client": 1})
+    if R_.random() < 0.06:
+        # the matrix is handed over as a SparseQuaternionMatrix (answered by both routines since the
+        # adjoint and the products dispatch on it): the same guarantees apply
+        A = dict(A, storage="sparse")
+        if R_.random() < 0.5:
+            A["explicit_zeros"] = True
+        tags = dict(tags, sparse=True)
     call = {"k": "fn", "fn": fn, "args": [A, Rk], "kwargs": kw, "client": 2, "tags": tags}
     if R_.random() < 0.1:
         call["clock"] = rand_clock(R_)   # stalled / jumping / coarse clock: must not matter
